@@ -82,6 +82,7 @@ type World struct {
 	Notifs      []Notification
 	SinkMode    string // "ok" | "500" | "error"
 	SinkDelayNs int64
+	OnNotify    func(cancelled <-chan struct{}) // called while the notification is outstanding
 	panics      []string
 	lc          *logCapture
 	seed        uint64
@@ -346,7 +347,16 @@ func (w *World) installSink() {
 		slow := func(res *http.Response) *http.Response {
 			w.sinkMu.Lock()
 			d := w.SinkDelayNs
+			cb := w.OnNotify
 			w.sinkMu.Unlock()
+			if cb != nil {
+				// the SMF reacts to the notification (e.g. sends a usage update) before it answers it
+				var done <-chan struct{}
+				if res != nil && res.Request != nil {
+					done = res.Request.Context().Done()
+				}
+				cb(done)
+			}
 			if d > 0 {
 				time.Sleep(time.Duration(d))
 			}
@@ -429,6 +439,22 @@ func SetQuota(supi string, rg int32, q int64) {
 	_, _ = mongoapi.RestfulAPIPutOne(chargingColl,
 		map[string]interface{}{"ueId": supi, "ratingGroup": rg},
 		map[string]interface{}{"quota": strconv.FormatInt(q, 10)})
+}
+
+// SetUnitCost overwrites the stored tariff.
+func SetUnitCost(supi string, rg int32, cost string) {
+	_, _ = mongoapi.RestfulAPIPutOne(chargingColl,
+		map[string]interface{}{"ueId": supi, "ratingGroup": rg},
+		map[string]interface{}{"unitCost": cost})
+}
+
+// UnitCostOf returns ChfUe.UnitCost[rg] (0 if unknown).
+func UnitCostOf(supi string, rg int32) uint32 {
+	ue, ok := chf_context.GetSelf().ChfUeFindBySupi(supi)
+	if !ok {
+		return 0
+	}
+	return ue.UnitCost[rg]
 }
 
 // Reserved returns ChfUe.ReservedQuota[rg] (0 if the subscriber or group is unknown).
